@@ -144,7 +144,7 @@ Definition wf_container (t : table) (c : container) : bool :=
   | KMsg => true
   | KTV => (c_tid c <? 128) && match c_subs c with [] => true | _ => false end &&
            match fixed_fields_size (c_fields c) with Some _ => true | None => false end
-  | KTLV => (128 <=? c_tid c) && (c_tid c <? 32768)
+  | KTLV => (128 <=? c_tid c) && (c_tid c <? 1024)
   end.
 
 Definition wf_schema (t : table) : bool := forallb (wf_container t) t.
